@@ -382,6 +382,10 @@ func (l *List) Inspect() string {
 // Remove eliminates the value form the element in the pos index
 // the element replaces with a nil value.
 func (l *List) Remove(pos int64) Object {
+	if pos < 0 {
+		return newError("a list index cannot be negative: %d", pos)
+	}
+
 	if int64(len(l.Value)) > pos {
 		l.Value[pos] = nil
 		l.dirty = true
@@ -420,6 +424,11 @@ func (l *List) ToDynamoDB() types.Item {
 	attr := types.Item{L: []*types.Item{}}
 
 	for _, v := range l.Value {
+		if v == nil {
+			// the hole a REMOVE left behind (see Compact)
+			continue
+		}
+
 		value := v.ToDynamoDB()
 		attr.L = append(attr.L, &value)
 	}
@@ -462,7 +471,12 @@ func (l *List) CanContain(objType ObjectType) bool {
 func (l *List) Add(obj Object) Object {
 	if obj.Type() == ObjectTypeList {
 		list := obj.(*List)
-		l.Value = append(l.Value, list.Value...)
+
+		for _, element := range list.Value {
+			if element != nil {
+				l.Value = append(l.Value, element)
+			}
+		}
 
 		return UNDEFINED
 	}
